@@ -38,6 +38,8 @@ POLICIES = {
     "hr-when-false": "hierarchical rule whose when-condition is false for the group. check_hierarchy: the rule cannot fail (bool_var "
                      "true, nothing in invalid output) | no datapoint at all.  hierarchy: nothing is computed | the item is computed as null",
     "hr-when-false-imbalance": "check_hierarchy, when-condition false and the datapoint is returned: imbalance null | left - right",
+    "nz-zero-chained": "hierarchy, non_zero, rule_priority: a computed item that is 0 is not returned; for a dependent rule it is absent from the "
+                       "computed output (the operand's datapoint is taken) | it is available as 0",
     "rule-fallback": "hierarchy, input mode rule, the rule that defines a right-side item produced no datapoint for the group: the item "
                      "is missing | the operand's datapoint is used",
 }
@@ -961,6 +963,7 @@ class HRStatement:
             if not self.order:
                 raise Outside("no '=' rule")
             self.defined = set(r["left"] for r in self.order)
+            self.used = set(n for r in self.order for _, n in r["right"])
             for r in self.order:
                 if r["left"] in [n for _, n in r["right"]]:
                     raise Outside("rule computing an item from itself")
@@ -1013,18 +1016,18 @@ class HRStatement:
         """hierarchy -> ({left item: computed value} for the rules that produced a datapoint, trace [(left, inputs, value|None)])"""
         items, mode, inp = self.groups[key], self.call["mode"], self.call["input"]
         base = dict(zip(self.other, key))
-        computed, trace = {}, []
+        computed, chain, trace = {}, {}, []          # chain: what the dependent rules see as the computed output
         for rule in self.order:
             src, origin = {}, {}
             for _, n in rule["right"]:
                 if inp == "dataset" or n not in self.defined:
                     v, origin[n] = items.get(n, ABSENT), "operand"
                 elif inp == "rule":
-                    v, origin[n] = computed.get(n, ABSENT), "computed"
+                    v, origin[n] = chain.get(n, ABSENT), "computed"
                     if v is ABSENT and items.get(n, ABSENT) is not ABSENT and pol.ask("rule-fallback") == 1:
                         v, origin[n] = items[n], "operand-fallback"
                 else:                      # rule_priority: the computed value unless missing or null, then the operand's
-                    v, origin[n] = computed.get(n, ABSENT), "computed"
+                    v, origin[n] = chain.get(n, ABSENT), "computed"
                     if (v is ABSENT or v is None) and items.get(n, ABSENT) is not ABSENT:
                         v, origin[n] = items[n], "operand-fallback"
                 if v is not ABSENT:
@@ -1039,8 +1042,10 @@ class HRStatement:
                 rv = None                  # other reading: the item is computed as null (where the mode returns nulls)
             if not produced(mode, involved, src, values, (None, rv), pol, True) or (mode == "non_null" and rv is None):
                 trace.append((rule["left"], origin, "not-produced"))
+                if mode == "non_zero" and rv == 0 and inp == "rule_priority" and rule["left"] in self.used and pol.ask("nz-zero-chained") == 1:
+                    chain[rule["left"]] = 0
                 continue
-            computed[rule["left"]] = rv
+            computed[rule["left"]] = chain[rule["left"]] = rv
             trace.append((rule["left"], origin, "produced"))
         return computed, trace
 
